@@ -107,6 +107,7 @@ func ruleLogger(w *W, fn *ssa.Function, args []Value) Value {
 
 func registerIntrinsics(e *Engine) {
 	registerStd(e)
+	registerCrypto(e)
 }
 
 // vpRule handles the harness runtime (functions named vp* in the harness package).
